@@ -128,6 +128,13 @@ class Toy(PoupoolActor):
         pass
     def do_repeat_x(self):
         self.hits.append("poll")
+    def boom(self):
+        raise RuntimeError("boom")
+    @do_repeat()
+    def on_enter_y(self):
+        pass
+    def do_repeat_y(self):
+        raise RuntimeError("boom")
 def fresh():
     w = runtime.World(datetime.datetime(2024, 1, 1))
     ref = Toy.start()
@@ -161,7 +168,18 @@ res["stale_first_poll"] = list(a.hits)         # must be []
 w, a, p = fresh()
 p.on_enter_x.defer(); w.settle()
 res["first_poll_runs"] = list(a.hits)          # must be ['poll']
-res["ok"] = (res["stale_after_cancel"] == [] and res["stale_after_rearm"] == [] and res["stale_first_poll"] == []
+# 4. an exception in a delayed call kills the controller (the supervision of poupool.py relies on it), with and without timer
+w, a, p = fresh()
+p.do_delay.defer(1, "boom"); w.settle()
+w.advance_to(w.now_us + 2_000_000); w.fire(); w.settle()
+res["exception_in_timed_call_kills"] = not a.actor_ref.is_alive()
+w, a, p = fresh()
+p.do_delay.defer(0, "boom"); w.settle()
+res["exception_in_immediate_call_kills"] = not a.actor_ref.is_alive()
+w, a, p = fresh()
+p.on_enter_y.defer(); w.settle()
+res["exception_in_first_poll_kills"] = not a.actor_ref.is_alive()
+res["ok"] = (res["exception_in_timed_call_kills"] and res["exception_in_immediate_call_kills"] and res["exception_in_first_poll_kills"] and res["stale_after_cancel"] == [] and res["stale_after_rearm"] == [] and res["stale_first_poll"] == []
              and res["first_poll_runs"] == ["poll"] and res["fired_then_cancel_queued_after"] == ["m"])
 print("PROBE " + json.dumps(res))
 ''' % VERIF
